@@ -1218,8 +1218,17 @@ def o_graph_other(case, T):
     # a raster whose outline is not a simple polygon in lon/lat (it reaches beyond the domain of its projection, wraps
     # around the antimeridian or a pole) is outside what any footprint arithmetic can handle: input-side filter
     for lab, A_, (h_, w_) in ((la, Ad, (ny, nx)), (lb, As, (sny, snx))):
-        LL = _project(lab, "4326", _apply(A_, _ring_dense([[0, 0], [w_, 0], [w_, h_], [0, h_]], 63)))
-        if not np.isfinite(LL).all() or np.ptp(LL[:, 0]) > 170 or not shapely.Polygon(LL).is_valid:
+        # (outline grown by 2.5 pixels: the margin any footprint arithmetic works with; a point that does not survive a
+        # round trip through the projection lies outside its domain - PROJ wraps the longitude instead of refusing)
+        m_ = 2.5
+        ring_ = _apply(A_, _ring_dense([[-m_, -m_], [w_ + m_, -m_], [w_ + m_, h_ + m_], [-m_, h_ + m_]], 63))
+        LL = _project(lab, "4326", ring_)
+        bad_ = not np.isfinite(LL).all() or np.ptp(LL[:, 0]) > 170 or not shapely.Polygon(LL).is_valid
+        if not bad_:
+            back_ = _project("4326", lab, LL)
+            span_ = float(np.abs(ring_).max()) or 1.0
+            bad_ = not np.isfinite(back_).all() or float(np.abs(back_ - ring_).max()) > 1e-6 * span_ + 1e-3
+        if bad_:
             T.exclude("raster_outline_not_simple_in_lonlat")
             return
     # every dst tile, densely, in the src pixel plane
